@@ -11,8 +11,9 @@ Open Scope R_scope.
 Ltac unit_sqrt H :=
   rewrite ?div_one;
   repeat (match goal with
-  | |- context [sqrt ?e] =>
-      let E := fresh in assert (E : e = 1) by (unfold sq4 in H; rewrite <- H; ring);
+  | |- context [sqrt (?a * ?a + ?b * ?b + ?c * ?c + ?d * ?d)] =>
+      is_var a; is_var b; is_var c; is_var d;
+      let E := fresh in assert (E : a * a + b * b + c * c + d * d = 1) by (unfold sq4 in H; rewrite <- H; ring);
       rewrite E; clear E; rewrite sqrt_1
   end; rewrite ?div_one).
 Ltac gate1 := repeat match goal with
